@@ -144,6 +144,9 @@ func stressRun(dur time.Duration, goroutines int, seed uint64, outFile string) i
 				cfgs = append(cfgs, c)
 			}
 		}
+		if sz, ok := dict.sizes.pick(r, 0.15); ok && sz > 100 {
+			padOriginsTo(cfgs, sz) // a mined size threshold applies to every configuration of the round
+		}
 		invalid := plantAll(cfgs[0], genPlanted(r, 2))
 		if _, err, _ := newMW(invalid); err == nil {
 			invalid = Cfg{} // accepted sequentially too (C04/C08 territory): use the empty configuration, which has no origins
